@@ -315,8 +315,10 @@ def m_apply(ms, op):
         if src.kind == "array":
             coord = coord.reshape(k, src.n, 3).reshape(k * src.n, 3)
         else:
-            # given as (k, m, n, 3); biotite reshapes to (m, k*n, 3) in memory order
-            coord = coord.reshape(k, src.m, src.n, 3).reshape(src.m, k * src.n, 3)
+            # given as (k, m, n, 3): coord[r] holds the coordinates of the r-th repeat for every model, so in the
+            # list-of-atoms model the result is the concatenation of k copies, copy r carrying coord[r]
+            coord = coord.reshape(k, src.m, src.n, 3)
+            coord = np.concatenate([coord[r] for r in range(k)], axis=-2) if k else coord.reshape(src.m, 0, 3)
         ann = {c: list(v) * k for c, v in src.ann.items()}
         bonds = None
         if src.bonds is not None:
